@@ -180,7 +180,18 @@ def run_script(case, stats):
     srv.slow_reader = big_out
     stats["resets"] += 1 if rst else 0
     stats["big_outbound"] += 1 if big_out else 0
-    reqs = [rng.choice([1, 3, 24, 24, 100, 100, 1000, 4096, 70000]) for _ in range(64)]
+    reqs = [rng.choice([1, 3, 24, 24, 100, 100, 1000, 4096, 70000, 0]) for _ in range(64)]
+    # [start, end) stream ranges of fragments that go out in one TCP segment: once a byte of such a fragment has been read, the rest is already buffered locally
+    small = []
+    off_ = 0
+    for it_ in items:
+        if it_[0] == "send" and not (junk and it_[1] is junk):
+            if len(it_[1]) <= 1400:
+                small.append((off_, off_ + len(it_[1])))
+            off_ += len(it_[1])
+
+    def buffered_now(pos_):
+        return any(a < pos_ < b for (a, b) in small)
     if first_req:
         reqs[0] = first_req
     data = bytearray()
@@ -211,9 +222,25 @@ def run_script(case, stats):
             n = min(reqs[i % len(reqs)], len(stream) - len(data))
             i += 1
             t0 = time.monotonic()
+            if n == 0:
+                # asking for nothing yields nothing -- and must not change what later reads see
+                try:
+                    z = t.bulk_read(0, timeout if timeout else 0.05)
+                except exc_name:
+                    z = b""             # (nothing was pending: the wait for readability may time out)
+                info["zero_reads"] = info.get("zero_reads", 0) + 1
+                if z != b"":
+                    viol.append({"mechanism": "read-too-long", "detail": "sync bulk_read(0) returned %d bytes" % len(z)})
+                continue
+            poll = buffered_now(len(data)) and i % 2 == 0
             try:
-                d = t.bulk_read(n, timeout)
+                d = t.bulk_read(n, 0 if poll else timeout)
+                if poll:
+                    info["polls"] = info.get("polls", 0) + 1
             except exc_name:
+                if poll:
+                    viol.append({"mechanism": "poll-lost-buffered-data", "detail": "sync bulk_read(%d, 0) raised TcpTimeoutException although the rest of a fragment the peer had sent in one piece was already there" % n})
+                    break
                 timeouts_seen.append(time.monotonic() - t0)
                 dry = dry + 1 if srv.sent_all.is_set() else 0
                 if dry >= 4:
@@ -273,9 +300,24 @@ def run_script(case, stats):
                 n = min(reqs[i % len(reqs)], len(stream) - len(data))
                 i += 1
                 t0 = time.monotonic()
+                if n == 0:
+                    try:
+                        z = await t.bulk_read(0, timeout if timeout else 0.05)
+                    except exc_name:
+                        z = b""
+                    info["zero_reads"] = info.get("zero_reads", 0) + 1
+                    if z != b"":
+                        viol.append({"mechanism": "read-too-long", "detail": "async bulk_read(0) returned %d bytes" % len(z)})
+                    continue
+                poll = buffered_now(len(data)) and i % 2 == 0
                 try:
-                    d = await t.bulk_read(n, timeout)
+                    d = await t.bulk_read(n, 0 if poll else timeout)
+                    if poll:
+                        info["polls"] = info.get("polls", 0) + 1
                 except exc_name:
+                    if poll:
+                        viol.append({"mechanism": "poll-lost-buffered-data", "detail": "async bulk_read(%d, 0) raised TcpTimeoutException although the rest of a fragment the peer had sent in one piece was already there" % n})
+                        break
                     timeouts_seen.append(time.monotonic() - t0)
                     dry[0] = dry[0] + 1 if srv.sent_all.is_set() else 0
                     if dry[0] >= 4:
@@ -337,6 +379,8 @@ def run_script(case, stats):
         raise RuntimeError("harness: script server failed: %r" % (srv.error,))
     stats["scripts"] += 1
     stats["reads_checked"] += info["reads"]
+    stats["zero_size_reads"] = stats.get("zero_size_reads", 0) + info.get("zero_reads", 0)
+    stats["polls_with_data_buffered"] = stats.get("polls_with_data_buffered", 0) + info.get("polls", 0)
     stats["timeouts_observed"] += len(timeouts_seen)
     stats["reconnects"] += 1
     stats["bytes_read"] += len(data)
